@@ -11,7 +11,7 @@ package supervisor
 //@ event ProcStart = ret os/exec.(*Cmd).Start
 //@ event ProcStartFailed = ret os/exec.(*Cmd).Start when r0 != nil
 //@ event ProcWaited = ret os/exec.(*Cmd).Wait
-//@ event WaiterSpawned = call supervisor.(*LocalSupervisor).Exec$1
+//@ event WaiterSpawned = go supervisor.(*LocalSupervisor).Exec$1
 //@ event ExitEventSent = send supervisor.LocalSupervisor.events
 //@ event SignalSent = call syscall.Kill
 //@ event KillSignalSent = call syscall.Kill when a1 == syscall.SIGKILL
